@@ -79,7 +79,7 @@ theorem bipNode_inv {nodes : List Nat} {st : Bip} (hI : BInv1 nodes st) (x : Nat
 
 theorem bip_loop1 (nodes : List Nat) (hnd : nodes.Nodup) : BInv1 nodes (nodes.zipIdx.foldl bipNode {}) := by
   induction nodes using List.reverseRecOn with
-  | nil => exact ⟨rfl, rfl, by intro v; cases v <;> simp [AL.get?], by intro v; cases v <;> simp [AL.get?], by simp⟩
+  | nil => exact ⟨rfl, rfl, by intro v; cases v <;> simp, by intro v; cases v <;> simp, by simp⟩
   | append_singleton l x ih =>
     have hl : l.Nodup := (List.nodup_append.1 hnd).1
     have hx : x ∉ l := by
